@@ -124,9 +124,22 @@ def register(reg):
         eng.heap_write(st, self_v, "NS.written", VBytes(z3.Concat(w.t, buf.t)))
         return NONE
 
+    # other tasks may close a stream under our feet (pool.aclose), nobody re-opens one
+    reg.shared_keys.add("NS.open")
+
+    def rely_streams(it, st, old):
+        eng = it.eng
+        oa = old.get("NS.open", eng.initial_array("NS.open", BoolS))
+        na = eng.heap_arr(st, "NS.open", BoolS)
+        for s in st.ghost.get("streams_of_interest", []):
+            eng.assume(st, z3.Implies(z3.Not(z3.Select(oa, s)), z3.Not(z3.Select(na, s))))
+
+    reg.rely_hooks.append(rely_streams)
+
     @reg.method(NS, "aclose", "close")
     def ns_aclose(it, st, self_v, args, kwargs, node):
         eng = it.eng
+        stream_of_interest(st, self_v.t)
         it.emit(st, "net.close", node, stream=self_v)
         # closing is modelled as atomic and non-failing (a close that raises still releases the fd)
         eng.heap_write(st, self_v, "NS.open", VBool(False))
@@ -226,6 +239,12 @@ def register(reg):
             return x
 
     reg.iter_by_class["val"] = OpaqueIter
+
+
+def stream_of_interest(st, s):
+    lst = st.ghost.setdefault("streams_of_interest", [])
+    if not any(z3.eq(x, s) for x in lst):
+        lst.append(s)
 
 
 def timeout_of(request_ext_val, kind: str):
